@@ -197,7 +197,7 @@ fn side_op_strategy() -> BoxedStrategy<Op> {
 
 fn ensure_strategy() -> BoxedStrategy<Ensure> {
 	(
-		prop_oneof![3 => Just(0u8), 4 => Just(1u8), 2 => Just(2u8), 2 => Just(3u8), 1 => Just(4u8), 1 => Just(5u8)],
+		prop_oneof![3 => Just(0u8), 4 => Just(1u8), 2 => Just(2u8), 2 => Just(3u8), 1 => Just(4u8), 1 => Just(5u8), 3 => Just(6u8)],
 		prop::bool::weighted(0.25),
 		any::<bool>(),
 		send_args_strategy(false, false, true, true),
@@ -961,6 +961,17 @@ fn judge(b: &Snap, a: &Snap, kind: &Kind, res: &Res) -> Vec<Problem> {
 			if !extra.is_empty() && !ps.iter().any(|p| p.kind == "context-changed" || p.kind == "meta-touched") {
 				ps.push(Problem { kind: "extra-change", subject: None, detail: format!("receive_tx changed other records: {:?}", extra) });
 			}
+			if let Res::Ok(_) = res {
+				// "a second delivery of the same slate to that account is refused": whatever stage the first one reached
+				if let Some(sid) = id {
+					// the account that actually received it now = the account of the new log entry
+					if let Some(t) = b.view.txs.iter().find(|t| {
+						t.tx_slate_id == Some(*sid) && t.tx_type == TxLogEntryType::TxReceived && new_txs.iter().any(|n| n.parent_key_id == t.parent_key_id)
+					}) {
+						ps.push(Problem { kind: "receive-duplicate-accepted", subject: None, detail: format!("slate {} was received before into this account (log entry {}, confirmed: {}) and was accepted again", sid, t.id, t.confirmed) });
+					}
+				}
+			}
 			if let Res::Ok(v) = res {
 				let tr = sig_triples(v);
 				if tr.len() != 1 {
@@ -1247,6 +1258,18 @@ fn do_ensure(sim: &mut Sim, e: &Ensure) -> Result<(), String> {
 			sim.pay_invoice(si, &args)?;
 			sim.lock(si)?;
 		}
+		6 => {
+			// a payment from wallet 1 that went all the way: received, finalized, posted, mined, confirmed by refresh
+			args.late_lock = false;
+			args.ttl = None;
+			let si = sim.init_send(o, v, &args)?;
+			sim.lock(si)?;
+			sim.deliver(si)?;
+			sim.finalize(si)?;
+			sim.post(si)?;
+			sim.mine(None, 0xffff)?;
+			let _ = sim.refresh(v);
+		}
 		_ => {
 			args.late_lock = false;
 			let si = sim.init_send(o, v, &args)?;
@@ -1295,6 +1318,12 @@ impl C07 {
 		let mut cur = take_snap(&sim, &self.scratch, acct)?;
 		let mut earlier_ids: Vec<Uuid> = vec![];
 		let mut earlier_slates: Vec<Value> = vec![];
+		// first-round slates the victim has already received in its history are candidates for replay
+		for srec in sim.slates.iter().filter(|s| s.flow == Flow::Send && s.responder == 0 && s.initiator != 0 && s.stage >= Stage::Replied) {
+			if let Ok(j) = slate_json(&srec.s1) {
+				earlier_slates.push(j);
+			}
+		}
 		let mut log: Vec<String> = vec![];
 		let mut fails: Vec<Fail> = vec![];
 		let had_late_ctx = sim.slates.iter().any(|s| s.initiator == 0 && s.late_lock && s.stage < Stage::Finalized && !s.is_cancelled());
